@@ -4,12 +4,19 @@ import Driver.Util
 namespace Driver.C09
 open Util
 
+/-- split a word list at the "/" separators -/
+def splitSteps (ws : List String) : List (List String) :=
+  let r := ws.foldr (fun w (acc : List String × List (List String)) => if w == "/" then ([], acc.1 :: acc.2) else (w :: acc.1, acc.2)) ([], [])
+  r.1 :: r.2
+
 /-- ops (answer is compared with the implementation's answer by the check driver):
   murmur <hex>            → signed decimal int64 token
   random <hex16 digest>   → decimal token
   ordlt <hex> <hex>       → true|false
   parsem <string>         → int64 (murmur3 ParseString().String())
-  rkey <hex> <hex> ...    → hex routing key of the encoded components -/
+  rkey <hex> <hex> ...    → hex routing key of the encoded components
+  qrk <c..> / <c..> / …   → one key per step (a Query object re-bound step by step)
+  qrke <explicit> / <c..> / … → the explicit key at every step -/
 def step (_ : Unit) (ws : List String) : Unit × String :=
   ((), match ws with
   | ["murmur", h] => match parseHex h with
@@ -37,6 +44,17 @@ def step (_ : Unit) (ws : List String) : Unit × String :=
         | some m, some n => toString (decide (m < n))
         | _, _ => "undefined"
       | _, _ => "bad-op"
+  | "qrk" :: cs =>
+      -- one Query object re-bound step by step: the key of every step is the key of that step's values
+      let steps := splitSteps cs
+      match steps.mapM (fun st => st.mapM parseHex) with
+      | some ls => " ".intercalate (ls.map (fun l => toHex (Token.routingKey l)))
+      | none => "bad-op"
+  | "qrke" :: e :: "/" :: cs =>
+      -- an explicit routing key wins at every step
+      match parseHex e with
+      | some k => " ".intercalate ((splitSteps cs).map (fun _ => toHex k))
+      | none => "bad-op"
   | "rkey-held" :: cs => match cs.mapM parseHex with
       | some l => toHex (Token.routingKey l)
       | none => "bad-op"
